@@ -13,7 +13,7 @@ META = {
     'assumptions': ['five fixed hash seeds (0, 1, 2, 4242, VERIF_SEED+7) stand for "all hash seeds"', 'hash(mol) itself is excluded: it is hash(str) and string hashing is seed dependent by design'],
 }
 
-MODES = ['first', 'second', 'flushed', 'copy', 'copy_after']
+MODES = ['first', 'second', 'flushed', 'copy', 'copy_after', 'after_failed_tx']
 
 
 def run_cell(cell):
